@@ -35,12 +35,14 @@ inductive Err
   | axis           -- ValueError: the axes can be 'x', 'y' or 'z'
   | angleIndex     -- IndexError: more tilt angles than images
   | binFactor      -- binning factor 0
+  | angleText      -- a line of the angle file is not a plain decimal number (outside the modelled grammar)
+  | argType        -- ValueError of `tlt_load` / `indices_load`: the argument is neither a path, a list nor an ndarray (e.g. a tuple)
 deriving Repr, DecidableEq
 
 def Err.name : Err → String
   | .cropWidth => "crop-width" | .cropHeight => "crop-height" | .index => "index" | .emptyIdx => "empty-indices"
   | .singleTilt => "single-tilt" | .emptyStack => "empty-stack" | .axis => "axis" | .angleIndex => "angle-index"
-  | .binFactor => "bin-factor"
+  | .binFactor => "bin-factor" | .angleText => "angle-text" | .argType => "arg-type"
 
 variable {α ι κ β : Type}
 
@@ -81,7 +83,9 @@ def ofFlat (n0 n1 n2 : Nat) (data : List α) : A3 α := readMrc { nx := n2, ny :
 
 /-! ### whole-tilt operations (images opaque) -/
 
-/-- `np.argsort(tilt_angles)`: positions ordered by ascending angle (stable; the property excludes ties) -/
+/-- `np.argsort(tilt_angles)`: positions ordered by ascending angle. The model's merge sort is stable (`argsort_stable`);
+numpy's default `kind="quicksort"` is NOT guaranteed to be, so for equal angles (outside the property: "without ties") the
+position of the tied images in the real result is unspecified and is never compared with the model's. -/
 def argsort (le : κ → κ → Bool) (angles : List κ) : List Nat :=
   (angles.zipIdx.mergeSort (fun a b => le a.1 b.1)).map (·.2)
 
@@ -89,6 +93,87 @@ def argsort (le : κ → κ → Bool) (angles : List κ) : List Nat :=
 def sortTilts (le : κ → κ → Bool) (angles : List κ) (imgs : List ι) : Except Err (List ι) :=
   let idx := argsort le angles
   if idx.all (· < imgs.length) then .ok (idx.filterMap (imgs[·]?)) else .error .angleIndex
+
+/-! ### the tilt-angle sources: a text file with one decimal number per line (`.tlt`, `.rawtlt`, …: `one_value_per_line_read`),
+the `TiltAngle = …` entries of an mdoc file (`Mdoc.get_image_feature("TiltAngle")`), or a list / ndarray of numbers.
+The sort key of the model is the EXACT rational value of the decimal text (no rounding): `parseDec`. The code sorts by
+that value rounded to float32 (text files) or float64 (mdoc, lists, arrays); rounding is monotone, so as long as it does
+not merge two different angles (the harness checks this for every generated case) the two orders are the same. -/
+
+def isWs (c : Char) : Bool := c == ' ' || c == '\t' || c == '\r' || c == '\n'
+
+/-- `str.strip()` / pandas' `sep=r"\s+"` on a one-column line -/
+def trimChars (cs : List Char) : List Char := ((cs.dropWhile isWs).reverse.dropWhile isWs).reverse
+
+/-- value of a string of decimal digits, most significant first -/
+def natOfDigits (ds : List Char) : Nat := ds.foldl (fun acc c => 10 * acc + (c.toNat - 48)) 0
+
+/-- `ddd`, `ddd.`, `ddd.ddd`, `.ddd` (at least one digit): the exact rational value -/
+def parseUnsigned (cs : List Char) : Option Rat :=
+  let ip := cs.takeWhile Char.isDigit
+  match cs.dropWhile Char.isDigit with
+  | [] => if ip.isEmpty then none else some (mkRat (natOfDigits ip) 1)
+  | '.' :: fp =>
+    if fp.all Char.isDigit && !(ip.isEmpty && fp.isEmpty) then some (mkRat (natOfDigits (ip ++ fp)) (10 ^ fp.length)) else none
+  | _ => none
+
+/-- an optional sign, then an unsigned decimal; exponents, `nan`, `inf` are not in the modelled grammar (`none`) -/
+def parseDecChars : List Char → Option Rat
+  | '-' :: cs => (parseUnsigned cs).map (fun q => -q)
+  | '+' :: cs => parseUnsigned cs
+  | cs => parseUnsigned cs
+
+def parseDec (s : String) : Option Rat := parseDecChars (trimChars s.toList)
+
+/-- every line must parse (a file with an unparsable line is outside the model: `none`) -/
+def parseAll : List String → Option (List Rat)
+  | [] => some []
+  | s :: t =>
+    match parseDec s, parseAll t with
+    | some q, some qs => some (q :: qs)
+    | _, _ => none
+
+def ratLe (a b : Rat) : Bool := decide (a ≤ b)
+
+/-- `sort_tilts_by_angle` on the angles as they are WRITTEN (one decimal text per image) -/
+def sortTiltsLines (lines : List String) (imgs : List ι) : Except Err (List ι) :=
+  match parseAll lines with
+  | none => .error .angleText
+  | some keys => sortTilts ratLe keys imgs
+
+/-! #### from the TEXT OF THE FILE to the column of angles -/
+
+def isBlank (cs : List Char) : Bool := cs.all isWs
+
+/-- first whitespace-separated field of a line -/
+def firstField (cs : List Char) : List Char := (cs.dropWhile isWs).takeWhile (fun c => !isWs c)
+
+/-- `pd.read_csv(path, header=None, sep=r"\s+").iloc[:, 0]`: blank lines are skipped, the first column is taken -/
+def tltColumn (lines : List (List Char)) : List (List Char) := (lines.filter (fun l => !isBlank l)).map firstField
+
+/-- `key = value` lines of an mdoc section: `line.split("=")`, both sides stripped -/
+def keyOf (cs : List Char) : List Char := trimChars (cs.takeWhile (· != '='))
+def valOf (cs : List Char) : List Char := trimChars ((cs.dropWhile (· != '=')).drop 1)
+
+/-- `Mdoc(path).get_image_feature("TiltAngle")`: one value per image section, in file order — the value of every
+`TiltAngle = v` line (section headers `[ZValue = k]` start with `[` and are no key lines) -/
+def mdocColumn (lines : List (List Char)) : List (List Char) :=
+  (lines.filter (fun l => l.head? != some '[' && keyOf l == "TiltAngle".toList)).map valOf
+
+/-- the `input_tilts` argument as the caller passes it -/
+inductive AngArg
+  | seq (lines : List String)   -- a list or an ndarray (the decimal text of each number)
+  | tltFile (lines : List String)   -- a one-value-per-line text file (`.tlt`, `.rawtlt`, `.txt`, …): ALL its lines
+  | mdocFile (lines : List String)  -- an `.mdoc` file: ALL its lines
+  | other                       -- anything else (a tuple, …): `tlt_load` raises `ValueError`
+deriving Repr, DecidableEq
+
+/-- the decimal texts `sort_tilts_by_angle` sorts by, one per image -/
+def AngArg.cells : AngArg → Option (List String)
+  | .seq lines => some lines
+  | .tltFile lines => some ((tltColumn (lines.map String.toList)).map String.ofList)
+  | .mdocFile lines => some ((mdocColumn (lines.map String.toList)).map String.ofList)
+  | .other => none
 
 /-- `ioutils.indices_load(idx, numbered_from_1)` for list input: `indices - 1` when numbered from 1 -/
 def indicesLoad (base1 : Bool) (idxs : List Int) : Except Err (List Int) :=
@@ -108,6 +193,7 @@ inductive IdxSrc
   | list   -- a python list or a numpy array
   | txt    -- a text file, one index per line (`np.loadtxt(dtype=int)`)
   | csv    -- a csv file with a boolean column `ToBeRemoved`: the row positions of the `True` cells, always 0-based
+  | other  -- anything else (a tuple, …): `indices_load` raises `ValueError`
 deriving Repr, DecidableEq
 
 /-- `numbered_from_1` as the caller passes it (`none`: keyword omitted, the signature default applies) -/
@@ -120,6 +206,7 @@ def removeTiltsSrc (src : IdxSrc) (base1 : Bool) (idxs : List Int) (imgs : List 
   | .list => removeTilts base1 idxs imgs
   | .txt => if idxs.isEmpty then .ok imgs else removeTilts base1 idxs imgs
   | .csv => if idxs.isEmpty then .ok imgs else removeTilts false idxs imgs
+  | .other => .error .argType
 
 /-- the loop `for i in range(n): if i % 2 == r: even.append(...) else: odd.append(...)`,
 written as two mutually recursive selections (`r = 0`: the first image is even) -/
@@ -210,6 +297,11 @@ def bin [Add α] [OfNat α 0] [Div α] [NatCast α] (b : Nat) (a : A3 α) : Exce
 
 def opSort (le : κ → κ → Bool) (angles : List κ) (a : A3 α) : Except Err (List (A3 α)) :=
   (sortTilts le angles a.v).map fun v => [{ a with d0 := v.length, v := v }]
+
+def opSortArg (arg : AngArg) (a : A3 α) : Except Err (List (A3 α)) :=
+  match arg.cells with
+  | none => .error .argType
+  | some cells => (sortTiltsLines cells a.v).map fun v => [{ a with d0 := v.length, v := v }]
 
 def opRemove (base1 : Bool) (idxs : List Int) (a : A3 α) : Except Err (List (A3 α)) :=
   (removeTilts base1 idxs a.v).map fun v => [{ a with d0 := v.length, v := v }]
